@@ -45,6 +45,12 @@ def bind_call_args(init, call, L):
     return env, exprs
 
 
+def bind_call_exprs(init, call):
+    """param name -> argument expression (positional and keyword arguments only; splats are ignored)."""
+    _, exprs = bind_call_args(init, call, lambda x: EMPTY)
+    return exprs
+
+
 def ctor_field_labels(repo, k, call, L, dict_fields=()):
     """field -> labels, for the object built by `K(args)` (through K.__init__'s body)."""
     init = repo.method(k, "__init__", required=False)
